@@ -11,9 +11,9 @@ import Mrm.Model.Serialize
 namespace Mrm
 
 /-- characters allowed in element and attribute names of the documents considered (MOS tag names
-    are ASCII letters and digits; `_ - . :` are admitted too) -/
+    are ASCII letters and digits; `_ - . :` and the non-ASCII letters from U+00C0 on are admitted too) -/
 def isNameChar (c : Char) : Bool :=
-  c.isAlphanum || c == '_' || c == '-' || c == '.' || c == ':'
+  c.isAlphanum || c == '_' || c == '-' || c == '.' || c == ':' || (0xC0 ≤ c.toNat && c.toNat != 0xD7 && c.toNat != 0xF7)
 
 def attrL (kv : String × String) : List Char :=
   ' ' :: kv.1.toList ++ '=' :: '"' :: escapeAttrL kv.2.toList ++ ['"']
